@@ -32,6 +32,7 @@ type Mode int
 const (
 	Supported Mode = iota // only shapes J5 documents as representable, annotations consistent
 	Arbitrary             // anything that links (C18)
+	Annotated             // Supported, plus validate / list / j5 annotations consistent with the field they sit on (C15)
 )
 
 var stdImports = []string{
@@ -238,6 +239,19 @@ func (g *gen) enumDesc(e *enumPlan) *descriptorpb.EnumDescriptorProto {
 		ed.Options = &descriptorpb.EnumOptions{}
 		proto.SetExtension(ed.Options, ext_j5pb.E_Enum, &ext_j5pb.EnumOptions{NoDefault: true})
 	}
+	if g.mode == Annotated && rapid.Bool().Draw(g.t, "enuminfo") {
+		// option info: declared on the enum, values on each option
+		ed.Options = &descriptorpb.EnumOptions{}
+		proto.SetExtension(ed.Options, ext_j5pb.E_Enum, &ext_j5pb.EnumOptions{InfoFields: []*ext_j5pb.EnumInfoField{{Name: "color", Label: "Colour"}, {Name: "size", Description: "how big"}}})
+		for i, v := range ed.Value {
+			if i == 0 {
+				continue
+			}
+			v.Options = &descriptorpb.EnumValueOptions{}
+			proto.SetExtension(v.Options, ext_j5pb.E_EnumValue, &ext_j5pb.EnumValueOptions{Description: "option " + v.GetName(), Info: map[string]string{"color": "red", "size": fmt.Sprint(i)}})
+		}
+		g.cls("ann:enum-info")
+	}
 	return ed
 }
 
@@ -388,7 +402,7 @@ func (g *gen) buildMessage(p *msgPlan) {
 		ft := g.drawType(p, false, true)
 		card := rapid.SampledFrom([]string{"", "", "", "optional", "repeated", "repeated", "map"}).Draw(t, "card")
 		if ft.class == "any" && (card == "repeated" || card == "map") {
-			if g.mode == Supported {
+			if g.mode != Arbitrary {
 				card = "" // arrays/maps of any are not in the J5 type list
 			}
 		}
@@ -415,6 +429,9 @@ func (g *gen) buildMessage(p *msgPlan) {
 				}
 				continue
 			}
+		}
+		if g.mode == Annotated && opts == nil {
+			opts = g.consistentOptions(ft, card)
 		}
 		if g.mode == Arbitrary {
 			opts = g.arbitraryOptions(ft, card, opts)
@@ -641,4 +658,138 @@ func (r *fallbackResolver) FindDescriptorByName(n protoreflect.FullName) (protor
 		return d, nil
 	}
 	return protoregistry.GlobalFiles.FindDescriptorByName(n)
+}
+
+// consistentOptions draws annotations that agree with the field's type and
+// cardinality: the rules, list rules and j5 field options a hand-written proto
+// file in the supported subset may carry.
+func (g *gen) consistentOptions(ft fieldType, card string) *descriptorpb.FieldOptions {
+	t := g.t
+	if card == "map" || card == "optional" || rapid.IntRange(0, 2).Draw(t, "annotate") == 0 {
+		return nil
+	}
+	opts := &descriptorpb.FieldOptions{}
+	filtering := func() *list_j5pb.FilteringConstraint {
+		return &list_j5pb.FilteringConstraint{Filterable: rapid.Bool().Draw(t, "filterable")}
+	}
+	sorting := func() *list_j5pb.SortingConstraint {
+		return &list_j5pb.SortingConstraint{Sortable: rapid.Bool().Draw(t, "sortable"), DefaultSort: rapid.Bool().Draw(t, "defaultsort")}
+	}
+	var item *validate.FieldConstraints
+	var list *list_j5pb.FieldConstraint
+	class := strings.SplitN(ft.class, ":", 2)[0]
+	switch {
+	case ft.class == "string":
+		switch rapid.IntRange(0, 2).Draw(t, "stringkind") {
+		case 0:
+			sr := &validate.StringRules{}
+			if rapid.Bool().Draw(t, "minlen") {
+				sr.MinLen = proto.Uint64(uint64(rapid.IntRange(0, 3).Draw(t, "minlenv")))
+			}
+			if rapid.Bool().Draw(t, "maxlen") {
+				sr.MaxLen = proto.Uint64(uint64(rapid.IntRange(3, 9).Draw(t, "maxlenv")))
+			}
+			if rapid.Bool().Draw(t, "pattern") {
+				sr.Pattern = proto.String(rapid.SampledFrom([]string{"^[a-z]+$", "^a.b$", "^\\d{3}$"}).Draw(t, "patternv"))
+			}
+			item = &validate.FieldConstraints{Type: &validate.FieldConstraints_String_{String_: sr}}
+			list = &list_j5pb.FieldConstraint{Type: &list_j5pb.FieldConstraint_String_{String_: &list_j5pb.StringRules{WellKnown: &list_j5pb.StringRules_OpenText{OpenText: &list_j5pb.OpenTextRules{Searching: &list_j5pb.SearchingConstraint{Searchable: rapid.Bool().Draw(t, "searchable"), FieldIdentifier: rapid.SampledFrom([]string{"", "tsv_x"}).Draw(t, "fieldid")}}}}}}
+			g.cls("ann:string-rules")
+		case 1:
+			proto.SetExtension(opts, ext_j5pb.E_Field, &ext_j5pb.FieldOptions{Type: &ext_j5pb.FieldOptions_Key{Key: &ext_j5pb.KeyField{Type: &ext_j5pb.KeyField_Format_{Format: ext_j5pb.KeyField_FORMAT_ID62}}}})
+			list = &list_j5pb.FieldConstraint{Type: &list_j5pb.FieldConstraint_String_{String_: &list_j5pb.StringRules{WellKnown: &list_j5pb.StringRules_ForeignKey{ForeignKey: &list_j5pb.ForeignKeyRules{Type: &list_j5pb.ForeignKeyRules_Id62{Id62: &list_j5pb.KeyRules{Filtering: filtering()}}}}}}}
+			g.cls("ann:key-id62")
+		default:
+			proto.SetExtension(opts, ext_j5pb.E_Field, &ext_j5pb.FieldOptions{Type: &ext_j5pb.FieldOptions_Key{Key: &ext_j5pb.KeyField{Type: &ext_j5pb.KeyField_Pattern{Pattern: "^[a-z]{3}-\\d+$"}}}})
+			g.cls("ann:key-custom")
+		}
+	case ft.class == "int32" || ft.class == "sint32":
+		item = &validate.FieldConstraints{Type: &validate.FieldConstraints_Int32{Int32: &validate.Int32Rules{GreaterThan: &validate.Int32Rules_Gte{Gte: int32(rapid.IntRange(-5, 5).Draw(t, "gte"))}, LessThan: &validate.Int32Rules_Lt{Lt: int32(rapid.IntRange(6, 100).Draw(t, "lt"))}}}}
+		if ft.class == "sint32" {
+			item = &validate.FieldConstraints{Type: &validate.FieldConstraints_Sint32{Sint32: &validate.SInt32Rules{GreaterThan: &validate.SInt32Rules_Gt{Gt: 1}}}}
+			list = &list_j5pb.FieldConstraint{Type: &list_j5pb.FieldConstraint_Sint32{Sint32: &list_j5pb.IntegerRules{Filtering: filtering(), Sorting: sorting()}}}
+		} else {
+			list = &list_j5pb.FieldConstraint{Type: &list_j5pb.FieldConstraint_Int32{Int32: &list_j5pb.IntegerRules{Filtering: filtering(), Sorting: sorting()}}}
+		}
+		g.cls("ann:int32-rules")
+	case ft.class == "uint64":
+		item = &validate.FieldConstraints{Type: &validate.FieldConstraints_Uint64{Uint64: &validate.UInt64Rules{LessThan: &validate.UInt64Rules_Lte{Lte: 1 << 63}}}}
+		list = &list_j5pb.FieldConstraint{Type: &list_j5pb.FieldConstraint_Uint64{Uint64: &list_j5pb.IntegerRules{Sorting: sorting()}}}
+		g.cls("ann:uint64-rules")
+	case ft.class == "int64":
+		item = &validate.FieldConstraints{Type: &validate.FieldConstraints_Int64{Int64: &validate.Int64Rules{GreaterThan: &validate.Int64Rules_Gt{Gt: -1 << 40}, LessThan: &validate.Int64Rules_Lte{Lte: 1 << 40}}}}
+		list = &list_j5pb.FieldConstraint{Type: &list_j5pb.FieldConstraint_Int64{Int64: &list_j5pb.IntegerRules{Filtering: filtering()}}}
+		g.cls("ann:int64-rules")
+	case ft.class == "double" || ft.class == "float":
+		if ft.class == "double" {
+			list = &list_j5pb.FieldConstraint{Type: &list_j5pb.FieldConstraint_Double{Double: &list_j5pb.FloatRules{Filtering: filtering(), Sorting: sorting()}}}
+		} else {
+			list = &list_j5pb.FieldConstraint{Type: &list_j5pb.FieldConstraint_Float{Float: &list_j5pb.FloatRules{Filtering: filtering(), Sorting: sorting()}}}
+		}
+		g.cls("ann:float-list")
+	case ft.class == "bool":
+		item = &validate.FieldConstraints{Type: &validate.FieldConstraints_Bool{Bool: &validate.BoolRules{Const: proto.Bool(rapid.Bool().Draw(t, "const"))}}}
+		list = &list_j5pb.FieldConstraint{Type: &list_j5pb.FieldConstraint_Bool{Bool: &list_j5pb.BoolRules{Filtering: filtering()}}}
+		g.cls("ann:bool-rules")
+	case ft.class == "bytes":
+		item = &validate.FieldConstraints{Type: &validate.FieldConstraints_Bytes{Bytes: &validate.BytesRules{MinLen: proto.Uint64(1), MaxLen: proto.Uint64(64)}}}
+		g.cls("ann:bytes-rules")
+	case ft.class == "enum":
+		item = &validate.FieldConstraints{Type: &validate.FieldConstraints_Enum{Enum: &validate.EnumRules{DefinedOnly: proto.Bool(true)}}}
+		list = &list_j5pb.FieldConstraint{Type: &list_j5pb.FieldConstraint_Enum{Enum: &list_j5pb.EnumRules{Filtering: filtering()}}}
+		g.cls("ann:enum-rules")
+	case ft.class == "wkt:Timestamp":
+		list = &list_j5pb.FieldConstraint{Type: &list_j5pb.FieldConstraint_Timestamp{Timestamp: &list_j5pb.TimestampRules{Filtering: filtering(), Sorting: sorting()}}}
+		g.cls("ann:timestamp-list")
+	case ft.class == "wkt:Date":
+		proto.SetExtension(opts, ext_j5pb.E_Field, &ext_j5pb.FieldOptions{Type: &ext_j5pb.FieldOptions_Date{Date: &ext_j5pb.DateField{Rules: &ext_j5pb.DateField_Rules{Minimum: proto.String("2020-01-01"), ExclusiveMaximum: proto.Bool(rapid.Bool().Draw(t, "exmax")), Maximum: proto.String("2030-12-31")}}}})
+		list = &list_j5pb.FieldConstraint{Type: &list_j5pb.FieldConstraint_Date{Date: &list_j5pb.DateRules{Filtering: filtering()}}}
+		g.cls("ann:date-rules")
+	case ft.class == "wkt:Decimal":
+		proto.SetExtension(opts, ext_j5pb.E_Field, &ext_j5pb.FieldOptions{Type: &ext_j5pb.FieldOptions_Decimal{Decimal: &ext_j5pb.DecimalField{Rules: &ext_j5pb.DecimalField_Rules{Minimum: proto.String("0.5"), Maximum: proto.String("99.95")}}}})
+		list = &list_j5pb.FieldConstraint{Type: &list_j5pb.FieldConstraint_Decimal{Decimal: &list_j5pb.DecimalRules{Filtering: filtering(), Sorting: sorting()}}}
+		g.cls("ann:decimal-rules")
+	case class == "any":
+		af := &ext_j5pb.AnyField{OnlyDefined: rapid.Bool().Draw(t, "onlydefined")}
+		if len(g.msgs) > 0 && rapid.Bool().Draw(t, "anytypes") {
+			af.Types = []string{strings.TrimPrefix(g.msgs[0].full, ".")}
+		}
+		proto.SetExtension(opts, ext_j5pb.E_Field, &ext_j5pb.FieldOptions{Type: &ext_j5pb.FieldOptions_Any{Any: af}})
+		list = &list_j5pb.FieldConstraint{Type: &list_j5pb.FieldConstraint_Any{Any: &list_j5pb.AnyRules{Filtering: filtering()}}}
+		g.cls("ann:any")
+	default:
+		return nil
+	}
+	if list != nil && rapid.Bool().Draw(t, "withlist") {
+		proto.SetExtension(opts, list_j5pb.E_Field, list)
+		g.cls("ann:list-rules")
+	}
+	required := rapid.IntRange(0, 3).Draw(t, "required") == 0
+	switch {
+	case card == "repeated":
+		rr := &validate.RepeatedRules{Items: item}
+		if rapid.Bool().Draw(t, "minitems") {
+			rr.MinItems = proto.Uint64(uint64(rapid.IntRange(0, 2).Draw(t, "minitemsv")))
+		}
+		if rapid.Bool().Draw(t, "unique") && item != nil && class != "wkt" && class != "any" {
+			rr.Unique = proto.Bool(true)
+		}
+		fc := &validate.FieldConstraints{Type: &validate.FieldConstraints_Repeated{Repeated: rr}}
+		if required {
+			fc.Required = proto.Bool(true)
+		}
+		proto.SetExtension(opts, validate.E_Field, fc)
+		g.cls("ann:repeated-rules")
+	case item != nil:
+		if required {
+			item.Required = proto.Bool(true)
+		}
+		proto.SetExtension(opts, validate.E_Field, item)
+	case required:
+		proto.SetExtension(opts, validate.E_Field, &validate.FieldConstraints{Required: proto.Bool(true)})
+	}
+	if required {
+		g.cls("ann:required")
+	}
+	return opts
 }
